@@ -290,11 +290,17 @@ func (e *c03Env) classes(r c03Row) []c03Class {
 		if !same {
 			cl = append(cl, c03Class{"the committee majority instead of the Alphabet", S(major), false})
 		}
+		if m := chainkit.AlphabetThreshold(c.N) - 1; m >= 1 && m != chainkit.MajorityThreshold(c.N) {
+			cl = append(cl, c03Class{fmt.Sprintf("one signature short of the Alphabet threshold (%d of %d)", m, c.N), S(c.MultisigOf(m)), false})
+		}
 		return append(cl, c03Class{"the Alphabet multisignature", S(alpha), true})
 	case reqCommittee:
 		cl := []c03Class{{"nobody relevant (a stranger)", S(e.strng), false}, {"a single committee member", S(member), false}}
 		if !same {
 			cl = append(cl, c03Class{"the Alphabet 2n/3+1 multisignature instead of the majority", S(alpha), false})
+		}
+		if m := c.N / 2; m >= 1 {
+			cl = append(cl, c03Class{fmt.Sprintf("one signature short of the majority (%d of %d)", m, c.N), S(c.MultisigOf(m)), false})
 		}
 		return append(cl, c03Class{"the committee majority", S(major), true})
 	case reqKeyAlpha:
@@ -360,7 +366,7 @@ func TestC03Matrix(t *testing.T) {
 	theT = t
 	defer removeBumped()
 	col := ev.New("C03", "matrix",
-		"the method list is read from the manifests compiled from the working tree (11 contracts); for every non-safe method x committee size {1,3,7} a fresh fully deployed and prepared world is built and every signer class of the method's documented requirement is tried in turn (nobody relevant, a single Alphabet member, the committee majority where the Alphabet is required and vice versa, the named key without the Alphabet, the Alphabet without the named key, ...): each deficient class must FAULT (or answer false) and leave the full snapshot of all contracts, GAS/NEO balances and notifications untouched, the exactly-required class must succeed; methods whose name starts with '_' must not be callable; every safe method is committed with plausible arguments and must leave the snapshot untouched; verify of Proxy/Alphabet/Processing is evaluated for every signer class; methods and classes are enumerated completely, arguments are one valid tuple per method; a manifest method without a table row is reported as uncovered (not an alarm)",
+		"the method list is read from the manifests compiled from the working tree (11 contracts); for every non-safe method x committee size {1,3,4,7} (4: an even size, where half of the keys is not a majority) a fresh fully deployed and prepared world is built and every signer class of the method's documented requirement is tried in turn (nobody relevant, a single Alphabet member, the committee majority where the Alphabet is required and vice versa, the named key without the Alphabet, the Alphabet without the named key, ...): each deficient class must FAULT (or answer false) and leave the full snapshot of all contracts, GAS/NEO balances and notifications untouched, the exactly-required class must succeed; methods whose name starts with '_' must not be callable; every safe method is committed with plausible arguments and must leave the snapshot untouched; verify of Proxy/Alphabet/Processing is evaluated for every signer class; methods and classes are enumerated completely, arguments are one valid tuple per method; a manifest method without a table row is reported as uncovered (not an alarm)",
 		"the witness requirement table is hand-written from the contracts' documentation", "one valid argument tuple per method")
 	defer func() { col.Flush(true) }()
 	nshards, shard := envInt("VERIF_NSHARDS", 1), envInt("VERIF_SHARD_INDEX", 0)
@@ -387,7 +393,7 @@ func TestC03Matrix(t *testing.T) {
 	})
 	uncovered := []string{}
 	idx := 0
-	for _, n := range []int{1, 3, 7} {
+	for _, n := range envInts("VERIF_C03_N", []int{1, 3, 4, 7}) {
 		for _, u := range universe {
 			key := fmt.Sprintf("%s.%s/%d", u.contract, u.m.Name, len(u.m.Parameters))
 			idx++
@@ -544,6 +550,7 @@ func c03Verify(h *ev.History, e *c03Env, contract string, target util.Uint160) {
 		{"the Alphabet 2n/3+1 multisignature", []neotest.Signer{c.Alphabet}, true, c.Alphabet.ScriptHash() == c.Committee.ScriptHash()},
 		{"the committee majority", []neotest.Signer{c.Committee}, c.Alphabet.ScriptHash() == c.Committee.ScriptHash(), true},
 		{"the NeoFSAlphabet role majority", []neotest.Signer{chainkit.Multisig(3, e.ir)}, false, false},
+		{"half of the committee keys (n/2 of n; a single member when n = 1)", []neotest.Signer{c.MultisigOf(max(c.N/2, 1))}, c.N == 1, c.N == 1},
 	} {
 		o := c.Call(cl.signers, target, "verify")
 		got, ok := o.Bool()
